@@ -322,6 +322,8 @@ pub struct ConcResult {
     pub replies_during_outage_ok: bool,
     /// C08: a receipt whose start block is not the height at which the request was accepted.
     pub stamp_mismatch: Option<String>,
+    /// C04: a tracker recorded as confirmed at a height that is not the height of the block holding its penalty.
+    pub conf_mismatch: Option<String>,
 }
 
 fn project(ctx: &TowerCtx, replies: Vec<Vec<String>>, log: &EventLog, from: usize, duration: u32, base_height: u32) -> Projection {
@@ -737,6 +739,26 @@ fn run_scenario_here(sc: &Scenario, strategy: Option<Strategy>, order: Option<&[
                     }
                 }
             }
+            // C04 (absolute, not relative to the reference orders): once the tower is at the node's tip, a tracker recorded as
+            // confirmed names the height of the block of the active chain that holds its penalty.
+            let mut conf_mismatch = None;
+            if !stuck && flag_ok && !had_abort {
+                let db = DbReader::open(&ctx.db_path).dump();
+                let st = node.lock();
+                for t in db.trackers.iter().filter(|t| t.confirmed) {
+                    if let Ok(p) = bitcoin::consensus::deserialize::<Transaction>(&t.penalty) {
+                        let truth = st.confirmed.get(&p.compute_txid()).map(|x| x.1);
+                        if truth != Some(t.height) {
+                            conf_mismatch = Some(format!(
+                                "tracker of penalty {} is recorded as confirmed at height {} but the penalty sits at {:?} on the active chain",
+                                p.compute_txid(),
+                                t.height,
+                                truth
+                            ));
+                        }
+                    }
+                }
+            }
             let rpc_log: Vec<(String, Option<Txid>, Verdict)> = log
                 .since(ev_from)
                 .into_iter()
@@ -778,6 +800,7 @@ fn run_scenario_here(sc: &Scenario, strategy: Option<Strategy>, order: Option<&[
                 node_down_when_stuck,
                 replies_during_outage_ok: true,
                 stamp_mismatch: take_stamp_mismatch(),
+                conf_mismatch,
             }
         })
     }));
@@ -819,6 +842,7 @@ fn run_scenario_here(sc: &Scenario, strategy: Option<Strategy>, order: Option<&[
                 node_down_when_stuck: false,
                 replies_during_outage_ok: true,
                 stamp_mismatch: None,
+                conf_mismatch: None,
             }
         }
     }
